@@ -210,9 +210,15 @@ pub fn convert_headers_to_http_format(
     };
 
     for header in headers {
-        if optional_list.contains(&header.name.as_str()) {
+        if optional_list
+            .iter()
+            .any(|h| h.eq_ignore_ascii_case(&header.name))
+        {
             headers_in_order.push(http::Header::new(&header.name).optional());
-        } else if skip_value_list.contains(&header.name.as_str()) {
+        } else if skip_value_list
+            .iter()
+            .any(|h| h.eq_ignore_ascii_case(&header.name))
+        {
             headers_in_order.push(http::Header::new(&header.name));
         } else {
             headers_in_order
